@@ -58,6 +58,7 @@ func runC05(c *core.Ctx) {
 	c14R5(c, "C05.R3")
 	c05R4(c)
 	c04Range(c, "C05.R7")
+	counterTransitions(c, "C05.R8")
 	c05R5(c)
 	// R6: interface contract, shared with C13.R3
 	c13R3as(c, "C05.R6")
